@@ -415,9 +415,10 @@ func (tempAcceptErr) Temporary() bool { return true }
 var errAcceptPermanent = errors.New("accept: permanent failure (simulated)")
 
 type acceptItem struct {
-	conn net.Conn
-	err  error
-	at   int64
+	conn     net.Conn
+	err      error
+	at       int64
+	onAccept func()
 }
 
 // SimListener hands scripted connections and errors to Server.Serve.
@@ -453,7 +454,7 @@ func NewSimListener(class int) *SimListener {
 }
 
 // Offer queues a connection (or an Accept error) for the server.
-func (l *SimListener) Offer(c net.Conn, err error) bool {
+func (l *SimListener) Offer(c net.Conn, err error, onAccept func()) bool {
 	l.mu.Lock()
 	defer l.mu.Unlock()
 	if l.closed {
@@ -461,7 +462,7 @@ func (l *SimListener) Offer(c net.Conn, err error) bool {
 		return false
 	}
 	now := time.Now().UnixNano()
-	l.q = append(l.q, acceptItem{conn: c, err: err, at: alignClass(now+1, l.class)})
+	l.q = append(l.q, acceptItem{conn: c, err: err, at: alignClass(now+1, l.class), onAccept: onAccept})
 	l.cond.Broadcast()
 	return true
 }
@@ -487,6 +488,9 @@ func (l *SimListener) Accept() (net.Conn, error) {
 					return nil, it.err
 				}
 				l.Accepted++
+				if it.onAccept != nil {
+					it.onAccept()
+				}
 				return it.conn, nil
 			}
 			l.mu.Unlock()
@@ -506,6 +510,13 @@ func (l *SimListener) Close() error {
 		return closedErr("close")
 	}
 	l.closed = true
+	// connections still in the backlog are refused
+	for _, it := range l.q {
+		if it.conn != nil {
+			it.conn.Close()
+		}
+	}
+	l.q = nil
 	l.cond.Broadcast()
 	return l.CloseErr
 }
